@@ -90,7 +90,7 @@ def install(S, which=("iban", "bic", "nat", "merge", "formatted")):
                     exp = R.expect_iban(text, table)
                     if exp.verdict == R.ACCEPT and not validate_bban:
                         _viol("IBAN.__init__:no_false_reject", "C01", {"text": esc(text)}, "ACCEPT", [type(e).__name__, str(e)[:120]])
-                    elif exp.verdict == R.REJECT and type(e).__name__ not in exp.allowed:
+                    elif exp.verdict == R.REJECT and not ({c.__name__ for c in type(e).__mro__} & set(exp.allowed)):
                         _viol("IBAN.__init__:error_names_present_defect", "C05", {"text": esc(text), "defects": sorted(exp.defects)}, sorted(exp.allowed), type(e).__name__)
                 raise
             if not allow_invalid:
@@ -123,7 +123,7 @@ def install(S, which=("iban", "bic", "nat", "merge", "formatted")):
                     exp = R.expect_bic(text, enforce_swift_compliance)
                     if exp.verdict == R.ACCEPT:
                         _viol("BIC.__init__:no_false_reject", "C04", {"text": esc(text)}, "ACCEPT", [type(e).__name__, str(e)[:120]])
-                    elif exp.verdict == R.REJECT and type(e).__name__ not in exp.allowed:
+                    elif exp.verdict == R.REJECT and not ({c.__name__ for c in type(e).__mro__} & set(exp.allowed)):
                         _viol("BIC.__init__:error_names_present_defect", "C05", {"text": esc(text), "defects": sorted(exp.defects)}, sorted(exp.allowed), type(e).__name__)
                 raise
             if not allow_invalid:
